@@ -22,6 +22,8 @@ def run(ctx):
     ctx.assumptions += ["system ids within one description are distinct (a duplicate id is C01's rejected registration)",
                         "model-level hooks are not handed the model (the statement lists system, agent, system-level and agent-level hooks)"]
     ctx.model_check(MC, "Decode_C18.cfg")
+    if not q:
+        ctx.model_check(MC, "Decode_C18_thorough.cfg", timeout=3000)      # <= 3 systems, groups of size 0..3: 1.75 M states
     ctx.model_check(MC, "Decode_C18_live.cfg")          # liveness: decoding ends for every description
     ctx.negative_control(MC, "Decode_C18_neg_after.cfg", ("C18_Prefix", "C18_Order"))
     descs = D.all_descs(2, 2, 2)
